@@ -16,9 +16,9 @@ Definition w_sec : list byte := mk_file (le_bytes 4 2 ++ le_bytes 4 4294967280 +
 Definition w_slen : list byte := mk_file (le_bytes 4 2 ++ le_bytes 4 44 ++ le_bytes 4 4 ++ [255; 255; 255; 255]) 0 0 1.
 
 Lemma w_sec_crashes c : fx_sec c = false -> deserializeC c w_sec = LCrash.
-Proof. destruct c as [a b c0 d e f g h i]; intros H; simpl in H; subst; destruct b; vm_compute; reflexivity. Qed.
+Proof. destruct c as [a b c0 d e f g h i j]; intros H; simpl in H; subst; destruct b, j; vm_compute; reflexivity. Qed.
 Lemma w_slen_crashes c : fx_slen c = false -> deserializeC c w_slen = LCrash.
-Proof. destruct c as [a b c0 d e f g h i]; intros H; simpl in H; subst; destruct a; vm_compute; reflexivity. Qed.
+Proof. destruct c as [a b c0 d e f g h i j]; intros H; simpl in H; subst; destruct a, j; vm_compute; reflexivity. Qed.
 Lemma w_sec_ok : bytes_ok w_sec /\ length w_sec = 44%nat.
 Proof. split; [apply bytes_okb_spec|]; vm_compute; reflexivity. Qed.
 Lemma w_slen_ok : bytes_ok w_slen /\ length w_slen = 48%nat.
@@ -26,6 +26,10 @@ Proof. split; [apply bytes_okb_spec|]; vm_compute; reflexivity. Qed.
 
 (* ------------------------------------------------------------------ safety of the repaired loader *)
 Definition lsafe (r : lres) : Prop := r <> LCrash /\ r <> LFuel.
+Lemma tail_ok_safe c pos ssz m : lsafe (tail_ok c pos ssz m).
+Proof. unfold tail_ok. destruct (_ && _); split; discriminate. Qed.
+Lemma tail_ok_loaded c pos ssz m m' : tail_ok c pos ssz m = Loaded m' -> m' = m.
+Proof. unfold tail_ok. destruct (_ && _); [discriminate|]. intros [= <-]; reflexivity. Qed.
 
 Lemma u32_small x : x < two32 -> u32 x = x.
 Proof. intros; unfold u32; apply N.mod_small; assumption. Qed.
@@ -75,22 +79,22 @@ Section Safe.
     intros Hb. induction fuel as [|k IH]; intros pos m Hp Hf; [lia|].
     cbn [load_strings]. unfold BIG in *.
     rewrite (add32_small pos 4) by (unfold two32; lia).
-    destruct (pos + 4 <=? ssz) eqn:E; [|split; discriminate]. apply N.leb_le in E.
+    destruct (pos + 4 <=? ssz) eqn:E; [|apply tail_ok_safe]. apply N.leb_le in E.
     destruct (rd_u32_ok data size (base + pos)) as [slen ->]; [lia|].
     rewrite Hslen.
-    destruct (ssz - (pos + 4) <? slen) eqn:E2; [split; discriminate|]. apply N.ltb_ge in E2.
+    destruct (ssz - (pos + 4) <? slen) eqn:E2; [destruct (fx_strict c); split; discriminate|]. apply N.ltb_ge in E2.
     destruct (rd_ok data size (base + (pos + 4)) slen) as [s ->]; [lia|].
     rewrite (add32_small (pos + 4) slen) by (unfold two32; lia).
     apply IH; lia.
   Qed.
 
   Lemma load_funs_safe fuel base ssz : base + ssz <= size ->
-    forall pos m, pos <= ssz -> ssz - pos < N.of_nat fuel -> lsafe (load_funs fuel data size base ssz pos m).
+    forall pos m, pos <= ssz -> ssz - pos < N.of_nat fuel -> lsafe (load_funs c fuel data size base ssz pos m).
   Proof.
     intros Hb. induction fuel as [|k IH]; intros pos m Hp Hf; [lia|].
     cbn [load_funs]. unfold BIG in *.
     rewrite !(add32_small pos) by (unfold two32; lia).
-    destruct (pos + 18 <=? ssz) eqn:E; [|split; discriminate]. apply N.leb_le in E.
+    destruct (pos + 18 <=? ssz) eqn:E; [|apply tail_ok_safe]. apply N.leb_le in E.
     destruct (rd_u32_ok data size (base + pos)) as [v1 ->]; [lia|].
     destruct (rd_u16_ok data size (base + (pos + 4))) as [v2 ->]; [lia|].
     destruct (rd_u32_ok data size (base + (pos + 6))) as [v3 ->]; [lia|].
@@ -101,31 +105,31 @@ Section Safe.
   Qed.
 
   Lemma load_debug_safe fuel base ssz : base + ssz <= size ->
-    forall pos m, pos <= ssz -> ssz - pos < N.of_nat fuel -> lsafe (load_debug fuel data size base ssz pos m).
+    forall pos m, pos <= ssz -> ssz - pos < N.of_nat fuel -> lsafe (load_debug c fuel data size base ssz pos m).
   Proof.
     intros Hb. induction fuel as [|k IH]; intros pos m Hp Hf; [lia|].
     cbn [load_debug]. unfold BIG in *.
     rewrite !(add32_small pos) by (unfold two32; lia).
-    destruct (pos + 8 <=? ssz) eqn:E; [|split; discriminate]. apply N.leb_le in E.
+    destruct (pos + 8 <=? ssz) eqn:E; [|apply tail_ok_safe]. apply N.leb_le in E.
     destruct (rd_u32_ok data size (base + pos)) as [v1 ->]; [lia|].
     destruct (rd_u32_ok data size (base + (pos + 4))) as [v2 ->]; [lia|].
     apply IH; lia.
   Qed.
 
   Lemma load_imports_safe fuel base ssz : base + ssz <= size ->
-    forall pos m, pos <= ssz -> ssz - pos < N.of_nat fuel -> lsafe (load_imports fuel data size base ssz pos m).
+    forall pos m, pos <= ssz -> ssz - pos < N.of_nat fuel -> lsafe (load_imports c fuel data size base ssz pos m).
   Proof.
     intros Hb. induction fuel as [|k IH]; intros pos m Hp Hf; [lia|].
     cbn [load_imports]. unfold BIG in *.
     rewrite !(add32_small pos) by (unfold two32; lia).
-    destruct (pos + 11 <=? ssz) eqn:E; [|split; discriminate]. apply N.leb_le in E.
+    destruct (pos + 11 <=? ssz) eqn:E; [|apply tail_ok_safe]. apply N.leb_le in E.
     destruct (rd_u32_ok data size (base + pos)) as [v1 ->]; [lia|].
     destruct (rd_u32_ok data size (base + (pos + 4))) as [v2 ->]; [lia|].
     destruct (rd_u16_ok data size (base + (pos + 8))) as [pc Epc]; [lia|]. rewrite Epc.
     destruct (rd_u8_ok data size (base + (pos + 10))) as [v4 ->]; [lia|].
     pose proof (rd_u16_bound _ _ _ _ Hsize Hok Epc) as Bpc.
     rewrite (add32_small (pos + 11) pc) by (unfold two32; lia).
-    destruct (ssz <? pos + 11 + pc) eqn:E2; [split; discriminate|]. apply N.ltb_ge in E2.
+    destruct (ssz <? pos + 11 + pc) eqn:E2; [destruct (fx_strict c); split; discriminate|]. apply N.ltb_ge in E2.
     destruct (rd_ok data size (base + (pos + 11)) pc) as [s ->]; [lia|].
     apply IH; lia.
   Qed.
@@ -186,31 +190,31 @@ Section Safe.
   Lemma load_strings_mok fuel base ssz pos m i m' : m_ok i m -> load_strings c fuel data size base ssz pos m = Loaded m' -> m_ok i m'.
   Proof.
     revert pos m. induction fuel as [|k IH]; intros pos m H; cbn [load_strings]; [discriminate|].
-    destruct (add32 pos 4 <=? ssz); [|intros [= <-]; exact H].
+    destruct (add32 pos 4 <=? ssz); [|intros E; apply tail_ok_loaded in E; subst; exact H].
     destruct (rd_u32 _ _ _); [|discriminate].
-    destruct (if fx_slen c then _ else _); [intros [= <-]; exact H|].
+    destruct (if fx_slen c then _ else _); [destruct (fx_strict c); [discriminate|intros [= <-]; exact H]|].
     destruct (rd _ _ _ _); [|discriminate]. apply IH. apply add_string_ok; exact H.
   Qed.
-  Lemma load_funs_mok fuel base ssz pos m i m' : m_ok i m -> load_funs fuel data size base ssz pos m = Loaded m' -> m_ok i m'.
+  Lemma load_funs_mok fuel base ssz pos m i m' : m_ok i m -> load_funs c fuel data size base ssz pos m = Loaded m' -> m_ok i m'.
   Proof.
     revert pos m. induction fuel as [|k IH]; intros pos m H; cbn [load_funs]; [discriminate|].
-    destruct (add32 pos 18 <=? ssz); [|intros [= <-]; exact H].
+    destruct (add32 pos 18 <=? ssz); [|intros E; apply tail_ok_loaded in E; subst; exact H].
     repeat (match goal with |- context [match ?x with Some _ => _ | None => _ end] => destruct x end); try discriminate.
     apply IH. exact H.
   Qed.
-  Lemma load_debug_mok fuel base ssz pos m i m' : m_ok i m -> load_debug fuel data size base ssz pos m = Loaded m' -> m_ok i m'.
+  Lemma load_debug_mok fuel base ssz pos m i m' : m_ok i m -> load_debug c fuel data size base ssz pos m = Loaded m' -> m_ok i m'.
   Proof.
     revert pos m. induction fuel as [|k IH]; intros pos m H; cbn [load_debug]; [discriminate|].
-    destruct (add32 pos 8 <=? ssz); [|intros [= <-]; exact H].
+    destruct (add32 pos 8 <=? ssz); [|intros E; apply tail_ok_loaded in E; subst; exact H].
     repeat (match goal with |- context [match ?x with Some _ => _ | None => _ end] => destruct x end); try discriminate.
     apply IH. exact H.
   Qed.
-  Lemma load_imports_mok fuel base ssz pos m i m' : m_ok i m -> load_imports fuel data size base ssz pos m = Loaded m' -> m_ok i m'.
+  Lemma load_imports_mok fuel base ssz pos m i m' : m_ok i m -> load_imports c fuel data size base ssz pos m = Loaded m' -> m_ok i m'.
   Proof.
     revert pos m. induction fuel as [|k IH]; intros pos m H; cbn [load_imports]; [discriminate|].
-    destruct (add32 pos 11 <=? ssz); [|intros [= <-]; exact H].
+    destruct (add32 pos 11 <=? ssz); [|intros E; apply tail_ok_loaded in E; subst; exact H].
     repeat (match goal with |- context [match ?x with Some _ => _ | None => _ end] => destruct x end); try discriminate;
-      try (destruct (ssz <? _)); try discriminate; try (intros [= <-]; exact H); try (apply IH; exact H).
+      try (destruct (ssz <? _)); try (destruct (fx_strict c)); try discriminate; try (intros [= <-]; exact H); try (apply IH; exact H).
   Qed.
 
   Lemma m_ok_mono i j m : i <= j -> m_ok i m -> m_ok j m.
@@ -287,4 +291,36 @@ Proof.
   { split; [exists 12; split; [reflexivity|lia]|simpl; lia]. }
   split; [exact S1|]. intros m Hm. destruct (S2 m Hm) as [[k [Hk1 Hk2]] [_ Hf]].
   split; [exact Hf|]. rewrite Hk1. change 2147483648 with (2 ^ 31). apply N.pow_le_mono_r; lia.
+Qed.
+
+(* ------------------------------------------------------------------ the strict loader refuses ragged table sections *)
+Lemma tail_ok_strict c pos ssz m m' : fx_strict c = true -> tail_ok c pos ssz m = Loaded m' -> pos = ssz.
+Proof.
+  unfold tail_ok. intros ->. destruct (pos =? ssz) eqn:E; simpl; [intros _; apply N.eqb_eq; exact E|discriminate].
+Qed.
+
+Theorem strict_funs_whole c data size base ssz : fx_strict c = true -> ssz + 18 < two32 ->
+  forall fuel pos m m', pos <= ssz -> load_funs c fuel data size base ssz pos m = Loaded m' -> (ssz - pos) mod 18 = 0.
+Proof.
+  intros Hs Hb. induction fuel as [|k IH]; intros pos m m' Hp; cbn [load_funs]; [discriminate|].
+  rewrite !(add32_small pos) by lia.
+  destruct (pos + 18 <=? ssz) eqn:E.
+  - apply N.leb_le in E.
+    repeat (match goal with |- context [match ?x with Some _ => _ | None => _ end] => destruct x end); try discriminate.
+    intros H. apply IH in H; [|lia]. replace (ssz - pos) with ((ssz - (pos + 18)) + 1 * 18) by lia.
+    rewrite N.mod_add by lia. exact H.
+  - intros H. apply (tail_ok_strict c _ _ _ _ Hs) in H. subst. rewrite N.sub_diag. reflexivity.
+Qed.
+
+Theorem strict_debug_whole c data size base ssz : fx_strict c = true -> ssz + 8 < two32 ->
+  forall fuel pos m m', pos <= ssz -> load_debug c fuel data size base ssz pos m = Loaded m' -> (ssz - pos) mod 8 = 0.
+Proof.
+  intros Hs Hb. induction fuel as [|k IH]; intros pos m m' Hp; cbn [load_debug]; [discriminate|].
+  rewrite !(add32_small pos) by lia.
+  destruct (pos + 8 <=? ssz) eqn:E.
+  - apply N.leb_le in E.
+    repeat (match goal with |- context [match ?x with Some _ => _ | None => _ end] => destruct x end); try discriminate.
+    intros H. apply IH in H; [|lia]. replace (ssz - pos) with ((ssz - (pos + 8)) + 1 * 8) by lia.
+    rewrite N.mod_add by lia. exact H.
+  - intros H. apply (tail_ok_strict c _ _ _ _ Hs) in H. subst. rewrite N.sub_diag. reflexivity.
 Qed.
